@@ -5,7 +5,7 @@ import os
 import sys
 import traceback
 
-from vf.report import HarnessError
+from vf.report import HarnessError, Livelock
 from vf.vworld import clock as vclock
 from vf.vworld import vloop
 from vf.vworld import base
@@ -167,7 +167,7 @@ class AsyncWorld:
         self.nstep += 1
         self.loop.step()
 
-    def run(self, cap=20000):
+    def run(self, cap=6000):
         """Run to quiescence under the default schedule."""
         vclock.set_current(self.clock)
         n = 0
@@ -176,7 +176,7 @@ class AsyncWorld:
             self.loop.step()
             n += 1
             if n > cap:
-                raise HarnessError('async world does not quiesce')
+                raise Livelock('asyncio world does not quiesce within %d steps' % cap)
         return n
 
     def next_deadline(self):
